@@ -1643,6 +1643,8 @@ class UserSpaceImpl(*_user_space_impl_base):
         return RefDict("own_refs", self)
 
     def on_delete(self):
+        # ItemSpaces built from this space as their base go with it
+        self.clear_subs_rootitems()
         # The references of a deleted space no longer hold their values
         for ref in list(self.own_refs.values()):
             self.model.refmgr.unregister_ref(ref)
